@@ -54,6 +54,7 @@ func (p *ContinuousPool) Start(ctx context.Context) {
 }
 
 func (p *ContinuousPool) maxIterationsReached() {
+	verifhook.Yield("cp.limit", p, 0)
 	p.workerCtxCancel()
 }
 
